@@ -2293,3 +2293,28 @@ variant('b-rx-feeder-error-event-not-final', ['C20'], 'rsocket/rx_support/back_p
         """                            observer.on_error(event.exception)
                             return""", """                            observer.on_error(event.exception)""",
         ('C20.n', 'from_async_event_iterator'))
+
+# C18.l signedness
+variant('b-simple-auth-username-length-signed', ['C18'], 'rsocket/extensions/authentication.py',
+        "        username_length = struct.unpack('>I', b'\\x00\\x00' + buffer[:2])[0]",
+        "        username_length = struct.unpack_from('>h', buffer)[0]", ('C18.l', 'AuthenticationSimple'))
+variant('b-lease-ttl-read-signed', ['C02'], 'rsocket/frame.py',
+        "struct.unpack_from('>II'", "struct.unpack_from('>iI'", ('C18.l', 'LeaseFrame'))
+
+# C14.b the expiry test is exact
+variant('b-lease-age-in-whole-seconds', ['C14'], 'rsocket/lease.py',
+        "        if self._lease_created_at + self.maximum_lease_time <= datetime.now():",
+        "        lease_age = datetime.now() - self._lease_created_at\n\n        if lease_age.seconds >= self.maximum_lease_time.total_seconds():",
+        ('C14.b', 'expired lease refuses'))
+variant('t-lease-age-as-a-difference', ['C14'], 'rsocket/lease.py',
+        "        if self._lease_created_at + self.maximum_lease_time <= datetime.now():",
+        "        lease_age = datetime.now() - self._lease_created_at\n\n        if lease_age >= self.maximum_lease_time:",
+        kind='twin')
+variant('t-lease-age-in-total-seconds', ['C14'], 'rsocket/lease.py',
+        "        if self._lease_created_at + self.maximum_lease_time <= datetime.now():",
+        "        if (datetime.now() - self._lease_created_at).total_seconds() >= self.maximum_lease_time.total_seconds():",
+        kind='twin')
+
+# C04.j the invalid-frame marker is not an exception
+variant('b-invalid-frame-marker-is-an-exception', ['C12', 'C04'], 'rsocket/frame.py',
+        "class InvalidFrame:", "class InvalidFrame(ParseError):", ('C04.j', 'parser output'))
